@@ -13,6 +13,7 @@
 use vstd::prelude::*;
 use vstd::std_specs::cmp::*;
 
+// verif: counter-overflow-undecided
 verus! {
 
 // ---- assumed: wtransport-proto values -----------------------------------------------------------
